@@ -187,7 +187,12 @@ func (f *ruleFactory) createExecutePipeline(
 					"an authenticator is defined after some other non authenticator type")
 			}
 
-			authenticator, err := f.hf.CreateAuthenticator(version, id.(string), getConfig(pipelineStep["config"]))
+			ref, err := getReference("authenticator", id, pipelineStep["config"])
+			if err != nil {
+				return nil, nil, nil, err
+			}
+
+			authenticator, err := f.hf.CreateAuthenticator(version, ref, getConfig(pipelineStep["config"]))
 			if err != nil {
 				return nil, nil, nil, err
 			}
@@ -243,6 +248,11 @@ func (f *ruleFactory) createOnErrorPipeline(
 	for _, ehStep := range ehConfigs {
 		id, found := ehStep["error_handler"]
 		if found {
+			ref, err := getReference("error_handler", id, ehStep["config"])
+			if err != nil {
+				return nil, err
+			}
+
 			conf := getConfig(ehStep["config"])
 
 			condition, err := getExecutionCondition(ehStep["if"])
@@ -250,7 +260,7 @@ func (f *ruleFactory) createOnErrorPipeline(
 				return nil, err
 			}
 
-			handler, err := f.hf.CreateErrorHandler(version, id.(string), conf)
+			handler, err := f.hf.CreateErrorHandler(version, ref, conf)
 			if err != nil {
 				return nil, err
 			}
@@ -338,12 +348,36 @@ func createHandler[T subjectHandler](
 		return nil, err
 	}
 
-	handler, err := creteHandler(version, id.(string), getConfig(configMap["config"]))
+	ref, err := getReference(handlerType, id, configMap["config"])
+	if err != nil {
+		return nil, err
+	}
+
+	handler, err := creteHandler(version, ref, getConfig(configMap["config"]))
 	if err != nil {
 		return nil, err
 	}
 
 	return &conditionalSubjectHandler{h: handler, c: condition}, nil
+}
+
+// getReference checks the parts of a pipeline step which the rule set decoder leaves untyped: the
+// mechanism reference must be a string and the optional config a map.
+func getReference(kind string, id, conf any) (string, error) {
+	ref, ok := id.(string)
+	if !ok {
+		return "", errorchain.NewWithMessagef(heimdall.ErrConfiguration,
+			"unexpected type %T for the %s reference", id, kind)
+	}
+
+	if conf != nil {
+		if _, ok = conf.(map[string]any); !ok {
+			return "", errorchain.NewWithMessagef(heimdall.ErrConfiguration,
+				"unexpected type %T for the config of %s %s", conf, kind, ref)
+		}
+	}
+
+	return ref, nil
 }
 
 func getConfig(conf any) config.MechanismConfig {
